@@ -32,7 +32,7 @@ SPACE = {
 BOUNDS = {"quick": {"depth": 3}, "thorough": {"depth": 3}}
 ASSUMPTIONS = [
     "states are identified through get_metric only; two variables per slot carry distinct prime labels so the occupant is identified exactly",
-    "a batch containing a refused element must raise, leave the refused slot unchanged and leave the variables listed before it registered (as one call per variable would); variables listed after it may or may not be registered",
+    "a batch containing a refused element must raise, leave the refused slot unchanged, leave the variables listed before it registered and those listed after it unregistered (as one call per variable, stopping at the refusal, would)",
     "histories are compared with their one-at-a-time equivalent in the same order; different registration orders are not required to agree on interpolated answers",
 ]
 
@@ -287,7 +287,13 @@ def check_transition(c, rec, history, act, occ0, tier, ans0=None):
         else:
             first_refused = min(i for i, n in enumerate(act["v"]) if slot_index(c, n) in refused)
             before = {slot_index(c, n) for n in act["v"][:first_refused]}
+            after = {slot_index(c, n) for n in act["v"][first_refused + 1:]} - before
             for si in seq:
+                if si in after and si not in refused and occ2[si] != occ0[si]:
+                    # ... and the call ends at the refusal: what is listed after it is not registered
+                    rec.violation("batching", "refused-batch-registers-later-variables", case, names(c, occ0), names(c, occ2))
+                    ok = False
+                    break
                 if si in before and si not in refused and occ2[si] != seq[si]:
                     # one at a time, in the same order, the variables listed before the refused one are registered
                     rec.violation("batching", "refused-batch-drops-earlier-variables", case, names(c, seq), names(c, occ2))
